@@ -22,8 +22,8 @@ def P(pid, rules, explanation, not_decided, assumptions=(), design="3"):
                           assumptions=list(assumptions), design=f"DESIGN.md section {design}")
 
 
-P("C01", ["IDX", "RETRY", "SIGN", "FREE", "CPFORM", "ARGNAME", "DIRECTION", "RATIOFORM", "PGFORM", "SUBFORM", "SHARED", "GETB", "SF4", "ESC", "BPWALK", "EXIT", "SF6"],
-  "(SF6) the user's objective and gradient each receive a private copy of the point, so that a callable working in place on its argument cannot move the point at which the other value is then computed (f and g handed to the solver belong to the same x); (EXIT) a projected-gradient message is only reported when the projected gradient of the returned (x, jac) was just tested against gtol; (BPWALK) the breakpoint walk skips variables already on a bound, stops as soon as the segment holds its minimiser and examines the breakpoints in sorted order; (SF4, ESC) the wrapper hands out a new array for every gradient, never its memo or the user's own buffer, so the stored gradients stay distinct objects (otherwise y = 0 and the solver stalls); (GETB) the box the solver works in is the caller's box (a side becomes infinite only when it is None); (SHARED, conservative) the kernels keep no module-level state between calls, so an iteration depends on this run only; Structural necessary conditions of C01, decided on every path of the source: (IDX) index-space typing of "
+P("C01", ["IDX", "RETRY", "SIGN", "FREE", "CPFORM", "ARGNAME", "DIRECTION", "RATIOFORM", "PGFORM", "SUBFORM", "SHARED", "GETB", "SF4", "ESC", "BPWALK", "EXIT", "SF6", "BOX"],
+  "(BOX) every iterate handed to the Cauchy search is a projection onto the box: get_cauchy_point has no guard of its own, an iterate one ulp outside a bound gets a negative breakpoint, the Cauchy point leaves the box and the run aborts far from a KKT point; (SF6) the user's objective and gradient each receive a private copy of the point, so that a callable working in place on its argument cannot move the point at which the other value is then computed (f and g handed to the solver belong to the same x); (EXIT) a projected-gradient message is only reported when the projected gradient of the returned (x, jac) was just tested against gtol; (BPWALK) the breakpoint walk skips variables already on a bound, stops as soon as the segment holds its minimiser and examines the breakpoints in sorted order; (SF4, ESC) the wrapper hands out a new array for every gradient, never its memo or the user's own buffer, so the stored gradients stay distinct objects (otherwise y = 0 and the solver stalls); (GETB) the box the solver works in is the caller's box (a side becomes infinite only when it is None); (SHARED, conservative) the kernels keep no module-level state between calls, so an iteration depends on this run only; Structural necessary conditions of C01, decided on every path of the source: (IDX) index-space typing of "
   "get_cauchy_point shows the sorted breakpoint list is filtered and walked in its own rank space, so variables "
   "resting on a bound with the gradient pushing outward (t = 0) cannot scramble the breakpoint order -- the "
   "defect behind the stalls the property names; (RETRY) a failed line search aborts only after a retry from a "
@@ -42,16 +42,16 @@ P("C02", ["BOX", "SIGN", "FDB", "SF6", "GETB", "EVALPT"],
   "bounds pick the bound the direction points to; (FDB) the caller's box is the box handed to the differencer.",
   "nothing of the statement is left out, under the assumptions np.clip is exact and SciPy's approx_derivative "
   "keeps its stencil inside `bounds`", design="3/C02")
-P("C03", ["DOWNHILL", "ACCEPT", "KEEP", "LSCAP", "SCALEPOS", "UNITS", "SF1", "SF3", "RESTARTX"],
-  "(RESTARTX) a restarted run compares its first trials with the value of the very point it starts from; (SF1, SF3) the value the line search compares is the wrapper's value at the trial point: the cache is keyed on the point and written by the evaluation at that point only; (UNITS) the reference value and slope handed to the line search are in the same unit as the wrapper's evaluations it is compared with; (SCALEPOS) the packaged gradient scaler yields a positive factor -- a negative one turns descent into ascent; The selection logic only compares objective values, so its correctness is a dataflow fact: (DOWNHILL) an "
+P("C03", ["DOWNHILL", "ACCEPT", "KEEP", "LSCAP", "SCALEPOS", "UNITS", "SF1", "SF3", "RESTARTX", "SF4"],
+  "(SF4) the wrapper applies the scaling factor when a value is read (accessors return memo * factor), so a factor set after the first evaluation also applies to the memoised start values: the start value f0 and the trial values the line search compares with it are in the same unit; (RESTARTX) a restarted run compares its first trials with the value of the very point it starts from; (SF1, SF3) the value the line search compares is the wrapper's value at the trial point: the cache is keyed on the point and written by the evaluation at that point only; (UNITS) the reference value and slope handed to the line search are in the same unit as the wrapper's evaluations it is compared with; (SCALEPOS) the packaged gradient scaler yields a positive factor -- a negative one turns descent into ascent; The selection logic only compares objective values, so its correctness is a dataflow fact: (DOWNHILL) an "
   "order-fact analysis of line_search proves the returned step is None or a step whose evaluated value is "
   "strictly below the (never overwritten) start value, NaN trial values never qualify; (ACCEPT) inside the main loop "
   "the iterate is only ever redefined as the projection of x + s*d with s the step returned by this iteration's "
   "line search; (KEEP) the failed-search branch does not touch "
   "(x, fun, jac); (LSCAP) the per-iteration evaluation cap is min(.., maxfun - nfev).",
   "monotonicity under non-determinism or rounding of the user's objective itself", design="3/C03")
-P("C04", ["EXIT", "RET", "NITB", "LSCAP", "ONCE", "PGFORM", "LSBUD", "GETB"],
-  "(GETB) the projected gradient the report speaks of is taken in the caller's box, which get_bounds hands on unchanged; (LSBUD) the line search spends at most the budget it is given, so that nfev stays within maxfun plus one line search; C04 is a control-flow property and all its clauses are decided: (EXIT) path-sensitive exploration of "
+P("C04", ["EXIT", "RET", "NITB", "LSCAP", "ONCE", "PGFORM", "LSBUD", "GETB", "FDFIXED"],
+  "(FDFIXED) a variable fixed by lb == ub is treated before the box is handed to SciPy's approx_derivative, whose step for it is 0 (gradient component 0/0 = nan, all projected-gradient tests false, the transient message START returned); (GETB) the projected gradient the report speaks of is taken in the caller's box, which get_bounds hands on unchanged; (LSBUD) the line search spends at most the budget it is given, so that nfev stays within maxfun plus one line search; C04 is a control-flow property and all its clauses are decided: (EXIT) path-sensitive exploration of "
   "minimize_lbfgsb over (message, success flag, comparison knowledge, facts) shows every state reaching a return "
   "carries a documented terminal message that is true of the returned state and success is False exactly for the "
   "abnormal message; (RET) every return is a result built at the return from the internal state and the wrapper's "
@@ -69,15 +69,15 @@ P("C05", ["COH", "CNT", "FIELDS", "SF1", "SF3", "SF5", "SF6", "ESC", "SF4", "RES
   "field agreement; the wrapper's own counting / caching rules are those of C15.",
   "bit-equality of the user's arithmetic between two calls (trusted: same call); determinism of user code",
   design="3/C05")
-P("C06", ["ORIENT", "FIELDS", "MEM", "OWN", "FDB", "BIND", "SFREAD", "UNITS", "MAXLEN", "RESTARTX", "BFGSFORM", "REBUILD", "STEPINIT", "ANCHOR", "CARRIED"],
-  "(CARRIED) every quantity computed from its own previous value (iteration counter, streaks, running extrema; attributes of the state object and locals of the main loop) is initialised from the checkpoint on a restart; (ANCHOR) the restoration anchors the retained points at checkpoint.x, so every path of the per-iteration memory update must store the new point -- otherwise the state emitted after a rejected pair restarts with another memory than the live run holds; (STEPINIT) the first trial step never exceeds the largest feasible step, so that a last-bit difference in the direction of a restarted run cannot abort its first line search; (REBUILD) a restart turns the restored history into matrices before its first iteration; (RESTARTX) the continuation starts at exactly the checkpoint's point; (BFGSFORM) the limited-memory matrices are rebuilt from the restored history X, G alone, so nothing but the checkpoint determines the continuation; (MAXLEN) a history deque built with maxlen= is bounded by exactly maxcor + 1; (UNITS) values read back from a checkpoint are used in the unit they were stored in (writer/reader agreement on the scaling factor); (OWN) decoding a checkpoint does not write into it, (FDB) differencing options depend on the caller's arguments only, (BIND) the line search sees the global iteration number, (SFREAD) the solver reads no evaluation history of the wrapper, which a restart cannot reproduce; (ORIENT) orientation typing of the checkpoint decoder: increments accumulated from the newest pair backwards, "
+P("C06", ["ORIENT", "FIELDS", "MEM", "OWN", "FDB", "BIND", "SFREAD", "UNITS", "MAXLEN", "RESTARTX", "BFGSFORM", "REBUILD", "STEPINIT", "ANCHOR", "CARRIED", "MATSOWN"],
+  "(MATSOWN) the fields of the limited-memory matrices (theta, W, the factors) are assigned only inside bfgsmats.py, where BFGSFORM shows them to be a function of the stored pairs: a restart rebuilds the matrices from the pairs alone, so a field set from anything else (a scaling kept across a reset of the memory) is lost by a checkpoint; (CARRIED) every quantity computed from its own previous value (iteration counter, streaks, running extrema; attributes of the state object and locals of the main loop) is initialised from the checkpoint on a restart; (ANCHOR) the restoration anchors the retained points at checkpoint.x, so every path of the per-iteration memory update must store the new point -- otherwise the state emitted after a rejected pair restarts with another memory than the live run holds; (STEPINIT) the first trial step never exceeds the largest feasible step, so that a last-bit difference in the direction of a restarted run cannot abort its first line search; (REBUILD) a restart turns the restored history into matrices before its first iteration; (RESTARTX) the continuation starts at exactly the checkpoint's point; (BFGSFORM) the limited-memory matrices are rebuilt from the restored history X, G alone, so nothing but the checkpoint determines the continuation; (MAXLEN) a history deque built with maxlen= is bounded by exactly maxcor + 1; (UNITS) values read back from a checkpoint are used in the unit they were stored in (writer/reader agreement on the scaling factor); (OWN) decoding a checkpoint does not write into it, (FDB) differencing options depend on the caller's arguments only, (BIND) the line search sees the global iteration number, (SFREAD) the solver reads no evaluation history of the wrapper, which a restart cannot reproduce; (ORIENT) orientation typing of the checkpoint decoder: increments accumulated from the newest pair backwards, "
   "subtracted from the newest point, appended oldest-first, identical shape for X and G -- the inverse of the "
   "encoder fixed by SIB; (FIELDS) every field a restart reads is written by every result and lands in the live "
   "variable it came from; (MEM) the refill is bounded by maxcor+1 points and drops from the left, so reducing "
   "maxcor keeps the most recent pairs.",
   "agreement 'up to rounding' of the continued iterates with the uninterrupted run (arithmetic)", design="3/C06")
-P("C07", ["ESC", "NITOFF", "SIB", "CBUSE", "CNT", "FIELDS", "ORIENT", "DOWNHILL", "BIND", "SFREAD", "LSCAP", "SHARED", "STEPINIT", "RETRY", "FDB", "ANCHOR", "CARRIED"],
-  "(CARRIED) every quantity computed from its own previous value (iteration counter, streaks, running extrema; attributes of the state object and locals of the main loop) is initialised from the checkpoint on a restart; (ANCHOR) the restoration anchors the retained points at checkpoint.x, so every path of the per-iteration memory update must store the new point -- otherwise the state emitted after a rejected pair restarts with another memory than the live run holds; (FDB) the finite-difference options are the caller's values, not quantities derived from the point at which the wrapper happens to be built (a restarted run builds it elsewhere); (RETRY) the decision to abort after a failed search depends only on the memory length, which the callback state carries; (STEPINIT) the first trial step never exceeds the largest feasible step, so that a last-bit difference in the direction of a restarted run cannot abort its first line search; (SHARED) no solver state lives outside what the callback state carries (no module-level state written by the package); (LSCAP) the line-search cap is computed from the counters at the time of use, so a restart sees the same cap as the uninterrupted run; (SFREAD, DOWNHILL, BIND) the line search depends only on quantities a checkpoint carries: start value, global iteration number, evaluators; (ESC) may-alias origins of everything handed to the callback are disjoint from the targets of every in-place "
+P("C07", ["ESC", "NITOFF", "SIB", "CBUSE", "CNT", "FIELDS", "ORIENT", "DOWNHILL", "BIND", "SFREAD", "LSCAP", "SHARED", "STEPINIT", "RETRY", "FDB", "ANCHOR", "CARRIED", "MATSOWN", "OWN"],
+  "(OWN) no write of the package reaches an array taken out of the point / gradient history: those arrays are the jac of states already handed to the callback (and, after a restart, a copy of the checkpoint's), so recycling an evicted buffer changes a state the user retained; (MATSOWN) the fields of the limited-memory matrices are assigned only inside bfgsmats.py as a function of the stored pairs, which is all a retained state carries of them; (CARRIED) every quantity computed from its own previous value (iteration counter, streaks, running extrema; attributes of the state object and locals of the main loop) is initialised from the checkpoint on a restart; (ANCHOR) the restoration anchors the retained points at checkpoint.x, so every path of the per-iteration memory update must store the new point -- otherwise the state emitted after a rejected pair restarts with another memory than the live run holds; (FDB) the finite-difference options are the caller's values, not quantities derived from the point at which the wrapper happens to be built (a restarted run builds it elsewhere); (RETRY) the decision to abort after a failed search depends only on the memory length, which the callback state carries; (STEPINIT) the first trial step never exceeds the largest feasible step, so that a last-bit difference in the direction of a restarted run cannot abort its first line search; (SHARED) no solver state lives outside what the callback state carries (no module-level state written by the package); (LSCAP) the line-search cap is computed from the counters at the time of use, so a restart sees the same cap as the uninterrupted run; (SFREAD, DOWNHILL, BIND) the line search depends only on quantities a checkpoint carries: start value, global iteration number, evaluators; (ESC) may-alias origins of everything handed to the callback are disjoint from the targets of every in-place "
   "write reachable afterwards; (NITOFF) counter-offset analysis: the state's nit equals the nit of a run stopped "
   "at that iteration; (SIB) the state and the final result bind the same keywords to the same expressions; "
   "(CBUSE) the callback's result only decides the user-callback stop and nothing else depends on the presence "
@@ -152,8 +152,8 @@ P("C15", ["SF1", "SF2", "SF3", "SF4", "SF5", "SF6", "SF7", "SHARED", "SFREAD"],
   "(SF4), one increment per user call (SF5), who-may-call the raw user functions (SF6), the differencer gets the "
   "counting wrapper, x0=self.x, f0=self.f after _update_fun (SF7).", "nothing (clause-complete under 2.1)",
   design="3/C15")
-P("C16", ["FDB", "MODES", "BOX", "SF7", "CNT", "SF5", "EVALPT", "SHARED", "BIND", "ARRLIKE"],
-  "(SHARED) the options of one differencer are not visible to another wrapper; (BIND) the finite-difference step reaches the differencer only; (ARRLIKE) the packaged objectives stay complex-analytic (no cast to a real dtype), which the complex-step mode relies on; (EVALPT) the package itself evaluates the objective at the cached (in-box) point only; every other evaluation goes through SciPy's approx_derivative, bounded by FDB; (CNT, SF5) nfev counts every objective evaluation incl. stencil points, also across a restart; (BOX)+(FDB) the differencer raises iff its x0 is outside `bounds`: x0 is the wrapper's cached point, which is "
+P("C16", ["FDB", "MODES", "BOX", "SF7", "CNT", "SF5", "EVALPT", "SHARED", "BIND", "ARRLIKE", "FDFIXED"],
+  "(FDFIXED) a variable fixed by lb == ub is treated before the box is handed to SciPy's approx_derivative, whose step for it is 0 (gradient component 0/0 = nan, all projected-gradient tests false, the transient message START returned); (SHARED) the options of one differencer are not visible to another wrapper; (BIND) the finite-difference step reaches the differencer only; (ARRLIKE) the packaged objectives stay complex-analytic (no cast to a real dtype), which the complex-step mode relies on; (EVALPT) the package itself evaluates the objective at the cached (in-box) point only; every other evaluation goes through SciPy's approx_derivative, bounded by FDB; (CNT, SF5) nfev counts every objective evaluation incl. stencil points, also across a restart; (BOX)+(FDB) the differencer raises iff its x0 is outside `bounds`: x0 is the wrapper's cached point, which is "
   "a projection onto the caller's box, and `bounds` is that same box for every finite-difference mode; (MODES) "
   "each documented mode has a handler on both sides; (SF7) stencil evaluations go through the counting wrapper.",
   "agreement of the final objective value with the exact-gradient solution to the accuracy of the scheme",
